@@ -513,7 +513,7 @@ pub fn base_announce() -> RefAnnounce {
 
 pub fn main(args: &Args) -> ! {
     let mut run = Run::new(args, "exploration");
-    run.set("rule", "constructed space: connect x transaction ids x lengths; announce: full product event x port x numwant x left with rotating values for the other fields, every single field swept, downloaded x left x uploaded product, 0/1/2/300 extension bytes; every truncation length; unknown events / actions / protocol ids; scrape with 0..=255 hashes x 8 limits and non-multiple lengths; replies: connect, announce v4/v6 with 0..=80 peers, scrape with 0..=255 entries, errors; every truncation of every reply kind. distinct = distinct byte strings / values; non-trivial = all (every case is compared with the independent BEP 15 codec)");
+    run.set("rule", "constructed space: connect x transaction ids x lengths; announce: full product event x port x numwant x left with rotating values for the other fields, every single field swept, downloaded x left x uploaded product, 0/1/2/300 extension bytes; every truncation length; unknown events / actions / protocol ids; scrape with 0..=420 hashes x 8 limits and non-multiple lengths; replies: connect, announce v4/v6 with 0..=80 peers, scrape with 0..=255 entries, errors; every truncation of every reply kind. distinct = distinct byte strings / values; non-trivial = all (every case is compared with the independent BEP 15 codec)");
     run.assume("the independent BEP 15 codec in c13.rs is the specification (explicit big-endian bytes at literal offsets)");
     let thorough = args.tier.thorough();
 
@@ -670,11 +670,13 @@ pub fn main(args: &Args) -> ! {
     }
     // ---- scrape
     let limits: Vec<u8> = vec![0, 1, 2, 69, 70, 71, 254, 255];
-    for n in 0..=255usize {
-        let hashes: Vec<[u8; 20]> = (0..n).map(|i| core::array::from_fn(|j| (i as u8).wrapping_mul(7).wrapping_add(j as u8))).collect();
+    // up to 420 hashes: more than a u8 can count and more than fit the tracker's 8192-byte receive buffer (408)
+    for n in 0..=420usize {
+        let hashes: Vec<[u8; 20]> = (0..n).map(|i| core::array::from_fn(|j| (i as u8).wrapping_mul(7).wrapping_add(j as u8).wrapping_add((i >> 8) as u8))).collect();
         let r = RefRequest::Scrape { connection_id: v64[n % 6], transaction_id: v32[n % 6], info_hashes: hashes };
         let b = ref_encode_request(&r);
-        if n > 0 {
+        if n > 0 && n <= 255 {
+            // parse(write(m)) == m is checked against the largest limit (255)
             ctx.check_request_value(&r, &[]);
         }
         for m in &limits {
